@@ -75,7 +75,10 @@ Proof.
   - inv H as nm s3 E3. destruct nm as [n|]; [|discriminate H]. destruct (n =? name)%N; [|discriminate H].
     inv H as g1 s4 E4. inv H as named s5 E5. inv H as u6 s6 E6. injection H as <- _. exists []. rewrite app_nil_r. reflexivity.
   - inv H as spec s3 E3. destruct spec as [cs|].
-    + inv H as value s4 E4. inv H as isr s5 E5. inv H as u6 s6 E6. apply IH in H as (more & ->). rewrite <- app_assoc. eauto.
+    + inv H as mode sm Em.
+      destruct ((mode =? MCharacters)%N && negb match content with [] => true | _ :: _ => false end).
+      { inv H as ux sx Ex. apply IH in H as (more & ->). eauto. }
+      inv H as value s4 E4. inv H as isr s5 E5. inv H as u6 s6 E6. apply IH in H as (more & ->). rewrite <- app_assoc. eauto.
     + inv H as u4 s4 E4. apply IH in H as (more & ->). eauto.
   - apply IH in H as (more & ->). eauto.
   - discriminate H.
@@ -116,7 +119,10 @@ Proof.
   - sync H as nm s3 E3. destruct nm as [n|]; [|discriminate H]. destruct (n =? name)%N; [|discriminate H].
     sync H as g1 s4 E4. sync H as named s5 E5. sync H as u6 s6 E6. injection H as <- <-. rewrite depth_node. split; [reflexivity|lia].
   - sync H as spec s3 E3. destruct spec as [cs|].
-    + sync H as value s4 E4. sync H as isr s5 E5. sync H as u6 s6 E6. apply IH; [assumption|]. rewrite maxd_app. cbn [maxd]. lia.
+    + sync H as mode sm Em.
+      destruct ((mode =? MCharacters)%N && negb match content with [] => true | _ :: _ => false end).
+      { sync H as ux sx Ex. apply IH; assumption. }
+      sync H as value s4 E4. sync H as isr s5 E5. sync H as u6 s6 E6. apply IH; [assumption|]. rewrite maxd_app. cbn [maxd]. lia.
     + sync H as u4 s4 E4. apply IH; assumption.
   - apply IH; assumption.
   - discriminate H.
